@@ -106,6 +106,31 @@ Ltac rc H :=
 
 
 
+(* the same case analysis with the two results substituted at once: [s] and [m] must be
+   variables (as they are after [absorb]); one elimination instead of up to two rewrites in
+   each of the five cases keeps the proof terms small when the goal is large *)
+Inductive Rx : sres -> eres -> Prop :=
+| Rx_unmod s : Rx s (EE EUnmodelled)
+| Rx_val v : Rx (SV v) (EV v)
+| Rx_miss : Rx SMiss EMiss
+| Rx_err er : Rx SErr (EE er)
+| Rx_undef m : Rx SUndef m.
+Lemma R_Rx s m : R s m -> Rx s m.
+Proof.
+  intros [H|H]; [subst m; constructor|].
+  destruct s as [v| | |].
+  - subst m. constructor.
+  - subst m. constructor.
+  - destruct H as [er H]. subst m. constructor.
+  - constructor.
+Qed.
+Ltac rx H := let v := fresh "v" in let er := fresh "er" in
+  apply R_Rx in H; destruct H as [?|v| |er|?].
+
+Lemma match_not_arr {A} (arg : value) (f : list value -> A) (d : A) : is_arr arg = false ->
+  match arg with VArr xs => f xs | _ => d end = d.
+Proof. destruct arg; try reflexivity. discriminate. Qed.
+
 (* abstract the results of a sub-expression *)
 Ltac absorb a vars doc :=
   let sa := fresh "s" in let ma := fresh "m" in let Es := fresh "Es" in let Em := fresh "Em" in
@@ -139,13 +164,13 @@ Lemma case_abs doc arg : IHarg doc arg -> P doc (VDoc [("$abs", arg)]).
 Proof.
   unary
     ltac:(destruct xs as [|x [|y xs]]; simpl; try done_R; guard_off Hn)
-    ltac:(rc Ha; simpl; try done_R; destruct v; simpl; done_R).
+    ltac:(rx Ha; simpl; try done_R; destruct v; simpl; done_R).
 Qed.
 
 Ltac destruct_var :=
   match goal with |- context [match ?x with _ => _ end] => is_var x; destruct x; simpl end.
 Ltac rc_all := repeat match goal with H : R _ _ |- _ => rc H end.
-Ltac fin_v := match goal with H : R _ _ |- _ => rc H end; simpl; try done_R;
+Ltac fin_v := match goal with H : R _ _ |- _ => rx H end; simpl; try done_R;
   match goal with v : value |- _ => destruct v; simpl; try done_R end.
 
 Lemma case_round doc k arg : In k ["$ceil"; "$floor"; "$trunc"] -> IHarg doc arg -> P doc (VDoc [(k, arg)]).
@@ -172,13 +197,76 @@ Proof.
     ltac:(fin_v).
 Qed.
 
+Definition dp_ops := ["$hour"; "$minute"; "$second"; "$millisecond"; "$dayOfWeek"].
+
+Definition s_one (vars : svars) (doc arg : value) : sres :=
+  match arg with
+  | VArr [x] => seval vars doc x
+  | VArr _ => SUndef
+  | _ => seval vars doc arg
+  end.
+
+Lemma s_one_plain vars doc arg : is_arr arg = false -> s_one vars doc arg = seval vars doc arg.
+Proof. intros Ea. destruct arg; try reflexivity. discriminate Ea. Qed.
+
+Lemma eval_datepart k vars doc arg : In k dp_ops ->
+  eval vars doc true (VDoc [(k, arg)]) =
+  match arg with
+  | VDoc _ => EE EUnmodelled
+  | _ => ebind (eval vars doc true arg) (fun v =>
+           match v with
+           | VDate us None => match time_part k us with Some z => EV (VInt z) | None => EE EUnmodelled end
+           | VDate _ (Some _) => EE EUnmodelled
+           | _ => EE ECrash
+           end)
+  end.
+Proof. intros [<-|[<-|[<-|[<-|[<-|[]]]]]]; reflexivity. Qed.
+
+Lemma seval_datepart k vars doc arg : In k dp_ops ->
+  seval vars doc (VDoc [(k, arg)]) =
+  match arg with
+  | VDoc _ => SUndef
+  | _ => if nullish (s_one vars doc arg) then SV VNull else
+         match s_one vars doc arg with
+         | SV (VDate us None) => match time_part k us with Some z => SV (VInt z) | None => SUndef end
+         | _ => SUndef
+         end
+  end.
+Proof. intros Hk; destruct arg as [| | | | | | | |[|x [|y xs]]]; destruct Hk as [<-|[<-|[<-|[<-|[<-|[]]]]]]; reflexivity. Qed.
+
+Lemma datepart_guard_single k x ms : In k dp_ops -> node_reasons k (VArr [x]) ms = 0 -> False.
+Proof.
+  intros Hk Hn. unfold node_reasons in Hn.
+  destruct Hk as [<-|[<-|[<-|[<-|[<-|[]]]]]]; simpl in Hn; split_guard Hn; discriminate.
+Qed.
+
+Lemma datepart_guard_null k arg m : In k dp_ops -> is_arr arg = false ->
+  node_reasons k arg [m] = 0 -> nullish_e m = false.
+Proof.
+  intros Hk Ea Hn. unfold node_reasons in Hn.
+  destruct Hk as [<-|[<-|[<-|[<-|[<-|[]]]]]]; simpl in Hn; split_guard Hn;
+    match goal with H : (nullish_e m || false)%bool = false |- _ => rewrite orb_false_r in H; exact H end.
+Qed.
+
 Lemma case_datepart doc k arg : In k ["$hour"; "$minute"; "$second"; "$millisecond"; "$dayOfWeek"] ->
   IHarg doc arg -> P doc (VDoc [(k, arg)]).
 Proof.
-  intros [<-|[<-|[<-|[<-|[<-|[]]]]]].
-  all: unary
-    ltac:(destruct xs as [|x [|y xs]]; simpl; try done_R; guard_off Hn)
-    ltac:(try done_R; specialize (Hn I); fin_v; try guard_off Hn; try (destruct_var; done_R)).
+  intros Hk IH vars Hg. change (In k dp_ops) in Hk.
+  assert (Ho : ordinary k) by (destruct Hk as [<-|[<-|[<-|[<-|[<-|[]]]]]]; ord).
+  rewrite (eval_datepart _ _ _ _ Hk), (seval_datepart _ _ _ _ Hk).
+  destruct (is_arr arg) eqn:Ea.
+  - destruct arg as [| | | | | | | |xs]; try discriminate Ea.
+    destruct (guard_list _ _ _ _ Ho Hg) as [_ Hn].
+    destruct xs as [|x [|y xs]]; try done_R.
+    exfalso. exact (datepart_guard_single _ _ _ Hk Hn).
+  - destruct (guard_unary _ _ _ _ Ho Ea Hg) as [Hr Hn].
+    pose proof (IH arg (le_n _) vars Hr) as Ha. clear IH Hg Hr.
+    rewrite (s_one_plain _ _ _ Ea). absorb arg vars doc.
+    destruct arg as [|b|z|e|s0|us tz|n|afs|xs]; try done_R; try discriminate Ea.
+    all: pose proof (datepart_guard_null _ _ _ Hk Ea (Hn I)) as Hnull; clear Hn.
+    all: rx Ha; simpl; try done_R; try discriminate Hnull.
+    all: destruct v; simpl; try done_R; try discriminate Hnull.
+    all: match goal with |- context [match ?t with Some _ => _ | None => _ end] => destruct t end; try done_R; destruct (time_part k _); done_R.
 Qed.
 
 Arguments mtruth : simpl never.
@@ -204,8 +292,8 @@ Proof.
   unary
     ltac:(destruct xs as [|x [|y xs]]; [simpl; done_R| |simpl; done_R];
           pose proof (IH x ltac:(size_le) vars (Hx x (or_introl eq_refl))) as Ha; clear IH Hx;
-          simpl; absorb x vars doc; rc Ha; fin)
-    ltac:(rc Ha; fin).
+          simpl; absorb x vars doc; rx Ha; fin)
+    ltac:(rx Ha; fin).
 Qed.
 
 Lemma case_size doc arg : IHarg doc arg -> P doc (VDoc [("$size", arg)]).
@@ -213,8 +301,8 @@ Proof.
   unary
     ltac:(destruct xs as [|x [|y xs]]; [simpl; done_R| |simpl; done_R];
           pose proof (IH x ltac:(size_le) vars (Hx x (or_introl eq_refl))) as Ha; clear IH Hx;
-          simpl; absorb x vars doc; rc Ha; fin)
-    ltac:(rc Ha; fin).
+          simpl; absorb x vars doc; rx Ha; fin)
+    ltac:(rx Ha; fin).
 Qed.
 
 
@@ -252,11 +340,11 @@ Lemma case_cmp doc k arg : In k ["$eq"; "$ne"; "$gt"; "$gte"; "$lt"; "$lte"] ->
   IHarg doc arg -> P doc (VDoc [(k, arg)]).
 Proof.
   intros [<-|[<-|[<-|[<-|[<-|[<-|[]]]]]]].
-  1,2: binary; rc Ha; rc Hb; simpl; try done_R;
+  1,2: binary; rx Ha; try done_R; rx Hb; try done_R; simpl; try done_R;
        match type of Hn with node_reasons ?k _ _ = 0 =>
          destruct (guard_plain2 k _ _ _ ltac:(simpl; tauto) Hn) as [H1 H2] end;
        rewrite (plain_py_bson _ _ H1 H2); done_R.
-  all: binary; rc Ha; rc Hb; simpl; try done_R;
+  all: binary; rx Ha; try done_R; rx Hb; try done_R; simpl; try done_R;
        match goal with |- context [spec_cmp3 ?x ?y] =>
          destruct (spec_cmp3 x y) eqn:E; [rewrite (cmp3_model _ _ _ _ E)|]; done_R end.
 Qed.
@@ -265,7 +353,7 @@ Qed.
 
 Lemma case_arrayElemAt doc arg : IHarg doc arg -> P doc (VDoc [("$arrayElemAt", arg)]).
 Proof.
-  binary; rc Ha; rc Hb; simpl; try done_R; try (guard_off Hn).
+  binary; rx Ha; try done_R; rx Hb; try done_R; simpl; try done_R; try (guard_off Hn).
   all: try (destruct v; simpl; try done_R; try (guard_off Hn)).
   all: try (destruct v0; simpl; try done_R; try (guard_off Hn)).
   all: fin.
@@ -278,13 +366,13 @@ Ltac dv v := destruct v; simpl; try done_R; try goff.
 
 Lemma case_strcasecmp doc arg : IHarg doc arg -> P doc (VDoc [("$strcasecmp", arg)]).
 Proof.
-  binary; rc Ha; rc Hb; simpl; try done_R; try goff.
+  binary; rx Ha; try done_R; rx Hb; try done_R; simpl; try done_R; try goff.
   all: try (dv v). all: try (dv v0). all: fin.
 Qed.
 
 Lemma case_in doc arg : IHarg doc arg -> P doc (VDoc [("$in", arg)]).
 Proof.
-  binary; rc Ha; rc Hb; simpl; try done_R; try goff.
+  binary; rx Ha; try done_R; rx Hb; try done_R; simpl; try done_R; try goff.
   all: try (destruct v0; simpl; try done_R; try goff).
   all: try (destruct (guard_plain2 "$in" _ _ _ ltac:(simpl; tauto) Hn) as [H1 H2];
             rewrite plain_arr in H2; rewrite (py_in_plain _ _ H1 H2); done_R).
@@ -293,14 +381,14 @@ Qed.
 
 Lemma case_subtract doc arg : IHarg doc arg -> P doc (VDoc [("$subtract", arg)]).
 Proof.
-  binary; rc Ha; rc Hb; unfold with_list; simpl; try done_R.
+  binary; rx Ha; try done_R; rx Hb; try done_R; unfold with_list; simpl; try done_R.
   all: try (dv v). all: try (dv v0). all: fin.
 Qed.
 
 Lemma case_divmod doc k arg : In k ["$divide"; "$mod"] -> IHarg doc arg -> P doc (VDoc [(k, arg)]).
 Proof.
   intros [<-|[<-|[]]].
-  all: binary; rc Ha; rc Hb; unfold with_list; simpl; try done_R.
+  all: binary; rx Ha; try done_R; rx Hb; try done_R; unfold with_list; simpl; try done_R.
   all: try (dv v). all: try (dv v0). all: fin.
 Qed.
 
@@ -322,11 +410,28 @@ Ltac ternary :=
 
 Lemma case_substr doc arg : IHarg doc arg -> P doc (VDoc [("$substr", arg)]).
 Proof.
-  ternary; rc Ha; rc Hb; rc Hc; simpl; try done_R; try goff.
+  ternary; rx Ha; try done_R; rx Hb; try done_R; rx Hc; try done_R; simpl; try done_R; try goff.
   all: try (dv v). all: try (dv v0). all: try (dv v1). all: fin.
   all: repeat match goal with H : (_ <?? 0) = false |- _ => apply Z.ltb_ge in H end.
   - unfold str_slice. rewrite py_slice_from by assumption. done_R.
   - unfold str_slice. rewrite py_slice_window by assumption. done_R.
+Qed.
+
+(* a position / count operand of $slice that the specification reads as an integer is an
+   integer literal (otherwise the guard bit 1024 is set) *)
+Lemma slice_lit_operand p z m :
+  R (SV (VInt z)) m ->
+  (forall n, p = VInt n -> SV (VInt z) = SV (VInt n)) ->
+  match p with
+  | VInt _ => false
+  | _ => match m with EV (VInt _) | EE EUnmodelled => true | _ => false end
+  end = false ->
+  p = VInt z.
+Proof.
+  intros Hr Hlit Hn.
+  destruct p as [|b|n|e|s|us tz|o|fs|xs];
+    try (exfalso; destruct Hr as [Hr|Hr]; rewrite Hr in Hn; discriminate Hn).
+  specialize (Hlit n eq_refl). inversion Hlit. reflexivity.
 Qed.
 
 Lemma case_slice doc arg : IHarg doc arg -> P doc (VDoc [("$slice", arg)]).
@@ -339,12 +444,16 @@ Proof.
     pose proof (IH p ltac:(size_le) vars (Hx p ltac:(simpl; tauto))) as Hp.
     assert (Hlit : forall n, p = VInt n -> seval (lift vars) doc p = SV (VInt n)) by (intros n ->; reflexivity).
     clear IH Hx; simpl in Hn; simpl; absorb a vars doc; absorb p vars doc.
-    destruct p; try (rewrite (Hlit _ eq_refl)); clear Hlit; simpl.
-    all: rc Ha; try (rc Hp); simpl; try done_R; try goff.
-    all: try (dv v). all: try (dv v0). all: fin.
-    all: repeat match goal with H : (_ <?? 0) = false |- _ => apply Z.ltb_ge in H
-                          | H : (_ <?? 0) = true |- _ => apply Z.ltb_lt in H end.
-    all: first [rewrite py_slice_last by assumption | rewrite py_slice_first by assumption]; done_R.
+    destruct s0 as [[| |n| | | | | |]| | |]; try done_R.
+    unfold node_reasons in Hn; simpl in Hn; split_guard Hn.
+    rewrite orb_false_r in Hn3.
+    pose proof (slice_lit_operand _ _ _ Hp Hlit Hn3) as Ep.
+    subst p. clear Hlit Hn1 Hn3 Hp. simpl.
+    rc Ha; simpl; try done_R; [|discriminate Hn0].
+    destruct v as [| | | | | | | |ys]; simpl; try done_R; [discriminate Hn0|].
+    destruct (Z.ltb_spec n 0) as [Hneg|Hpos].
+    + rewrite py_slice_last by assumption. done_R.
+    + rewrite py_slice_first by assumption. done_R.
   - destruct (guard_list _ _ _ _ Ho Hg) as [Hx Hn]; clear Hg.
     pose proof (IH a ltac:(size_le) vars (Hx a ltac:(simpl; tauto))) as Ha.
     pose proof (IH p ltac:(size_le) vars (Hx p ltac:(simpl; tauto))) as Hp.
@@ -352,18 +461,20 @@ Proof.
     assert (Hlit : forall n, p = VInt n -> seval (lift vars) doc p = SV (VInt n)) by (intros n ->; reflexivity).
     assert (Hlitq : forall n, q = VInt n -> seval (lift vars) doc q = SV (VInt n)) by (intros n ->; reflexivity).
     clear IH Hx; simpl in Hn; simpl; absorb a vars doc; absorb p vars doc; absorb q vars doc.
-    destruct p; try (rewrite (Hlit _ eq_refl)); clear Hlit; simpl.
-    all: destruct q; try (rewrite (Hlitq _ eq_refl)); clear Hlitq; simpl.
-    all: rc Ha; try (rc Hp); try (rc Hq); simpl; try done_R; try goff.
-    all: try (dv v). all: try (dv v0). all: try (dv v1). all: fin.
-    all: repeat match goal with H : (_ <?? 0) = false |- _ => apply Z.ltb_ge in H
-                          | H : (_ <?? 0) = true |- _ => apply Z.ltb_lt in H
-                          | H : (_ <=? 0) = false |- _ => apply Z.leb_gt in H end.
-    all: try (rewrite py_slice_window by lia; rewrite skipn_min by assumption; done_R).
-    all: unfold node_reasons in Hn; simpl in Hn; split_guard Hn.
-    all: rewrite py_slice_neg_window; try done_R; try lia.
-    all: match goal with H : (_ && _)%bool = false |- _ =>
-           apply andb_false_iff in H; destruct H as [H|H]; [apply Z.ltb_ge in H|apply Z.ltb_ge in H]; lia end.
+    destruct s0 as [[| |p0| | | | | |]| | |]; try done_R.
+    destruct s1 as [[| |n| | | | | |]| | |]; try done_R.
+    unfold node_reasons in Hn; simpl in Hn; split_guard Hn.
+    apply orb_false_iff in Hn3. destruct Hn3 as [Hn3 Hn4]. rewrite orb_false_r in Hn4.
+    pose proof (slice_lit_operand _ _ _ Hp Hlit Hn3) as Ep.
+    pose proof (slice_lit_operand _ _ _ Hq Hlitq Hn4) as Eq.
+    subst p q. clear Hlit Hlitq Hn3 Hn4 Hp Hq. simpl.
+    rc Ha; simpl; try done_R; [|discriminate Hn0].
+    destruct v as [| | | | | | | |ys]; simpl; try done_R; [discriminate Hn0|].
+    destruct (Z.leb_spec n 0) as [Hle|Hgt]; [done_R|].
+    destruct (Z.ltb_spec p0 0) as [Hneg|Hpos].
+    + split_guard Hn1.
+      rewrite py_slice_neg_window; try done_R; try lia.
+    + rewrite py_slice_window by lia. rewrite skipn_min by assumption. done_R.
 Qed.
 
 
